@@ -161,6 +161,30 @@ theorem mem_of_filter_eq' {cs cs' : List Id} {c x : Id}
     (h : cs'.filter (fun x => decide (x ≠ c)) = cs.filter (fun x => decide (x ≠ c))) (hx : x ∈ cs) (hxc : x ≠ c) : x ∈ cs' :=
   mem_of_filter_eq h.symm hx hxc
 
+/-- Rectangles and visibilities of the windows there were are kept. -/
+def RectsKept (t t' : Tree) : Prop :=
+  ∀ (x : Nat) (w : Win), t.wins[x]? = some w → ∃ w', t'.wins[x]? = some w' ∧ w'.rect = w.rect ∧ w'.isVisible = w.isVisible
+
+theorem RectsKept.refl (t : Tree) : RectsKept t t := fun _ w h => ⟨w, h, rfl, rfl⟩
+
+theorem RectsKept.trans {a b c : Tree} (h1 : RectsKept a b) (h2 : RectsKept b c) : RectsKept a c := by
+  intro x w hw
+  obtain ⟨w1, hw1, r1, v1⟩ := h1 x w hw
+  obtain ⟨w2, hw2, r2, v2⟩ := h2 x w1 hw1
+  exact ⟨w2, hw2, r2.trans r1, v2.trans v1⟩
+
+theorem rectsKept_congr {t t' : Tree} (h : t'.wins = t.wins) : RectsKept t t' := fun _ w hw => ⟨w, by rw [h]; exact hw, rfl, rfl⟩
+
+theorem rectsKept_relist (t t' : Tree) (p : Id) (pw : Win) (cs : List Id) (hpw : t.wins[p]? = some pw)
+    (h : t'.wins = (WinTree.set t p { pw with children := cs }).wins) : RectsKept t t' := by
+  intro x w hw
+  rw [h]
+  by_cases hx : x = p
+  · subst hx
+    rw [hpw] at hw; cases hw
+    exact ⟨_, set_wins_self t x _ _ hpw, rfl, rfl⟩
+  · exact ⟨w, by rw [set_wins_other t p x _ hx]; exact hw, rfl, rfl⟩
+
 /-! ### the generic step -/
 
 /-- After `tb` (whose store is `t`'s) the optional expose of `e` in `p` keeps everything but the damage, which grows. -/
@@ -384,7 +408,8 @@ theorem tinv_pointwise (content : Id → Int → Int → Cell) (screen : Int →
 theorem restack_step (content : Id → Int → Int → Cell) (screen : Int → Int → Cell) (t t' : Tree) (ch : Change) (p c : Id)
     (hch : isRestack ch = true) (hI : TInv content screen t)
     (h : doHierarchyChange t (t.wins.size + 1) ch p c = .ok t') :
-    TInv content screen t' ∧ RootStep t t' ∧ t'.wins.size = t.wins.size ∧ (ParentListed t → ParentListed t') := by
+    TInv content screen t' ∧ RootStep t t' ∧ t'.wins.size = t.wins.size ∧ (ParentListed t → ParentListed t') ∧
+      RectsKept t t' := by
   unfold doHierarchyChange at h
   simp only [bind, Bind.bind] at h
   cases hgp : WinTree.get t p with
@@ -405,7 +430,8 @@ theorem restack_step (content : Id → Int → Int → Cell) (screen : Int → I
           cs.filter (fun x => decide (x ≠ c)) = pw.children.filter (fun x => decide (x ≠ c)) →
           (if w0.isVisible then expose (WinTree.set t p { pw with children := cs }) (t.wins.size + 1) p (some w0.rect)
             else pure (WinTree.set t p { pw with children := cs })) = .ok t' →
-          TInv content screen t' ∧ RootStep t t' ∧ t'.wins.size = t.wins.size ∧ (ParentListed t → ParentListed t') := by
+          TInv content screen t' ∧ RootStep t t' ∧ t'.wins.size = t.wins.size ∧ (ParentListed t → ParentListed t') ∧
+            RectsKept t t' := by
         intro hmem cs hperm hfilter hh
         obtain ⟨cw, hcw, hcpar, hcr⟩ := hok.wf.child p pw hpw.1 c hmem
         rw [hw0.1] at hcw; cases hcw
@@ -429,7 +455,7 @@ theorem restack_step (content : Id → Int → Int → Cell) (screen : Int → I
           (fun _ => ⟨hcpar, hcr, hI.ord p pw hpw.1 c hmem⟩) hh
         exact ⟨h1, h2, by rw [h3, set_size], fun hpl => h4 (hpl.but c) (fun q hq => by
           rw [hcpar] at hq
-          exact ⟨(Option.some.inj hq).symm, (List.Perm.mem_iff hperm).2 hmem⟩)⟩
+          exact ⟨(Option.some.inj hq).symm, (List.Perm.mem_iff hperm).2 hmem⟩), rectsKept_relist t t' p pw cs hpw.1 h3⟩
       cases ch with
       | insertFirst => cases hch
       | insertLast => cases hch
@@ -476,7 +502,7 @@ theorem restack_step (content : Id → Int → Int → Cell) (screen : Int → I
             intro x w q hw hq
             rw [hwb x] at hw
             obtain ⟨qw, hqw, hm⟩ := hpl x w q hw hq
-            exact ⟨qw, by rw [hwb q]; exact hqw, hm⟩)⟩
+            exact ⟨qw, by rw [hwb q]; exact hqw, hm⟩), fun x w hw => ⟨w, by rw [b3, hwb x]; exact hw, rfl, rfl⟩⟩
       | lowerBack =>
         simp only at h
         cases hlr : listRemove pw.children c with
@@ -496,14 +522,15 @@ theorem restack_step (content : Id → Int → Int → Cell) (screen : Int → I
 theorem applyChanges_step (content : Id → Int → Int → Cell) (screen : Int → Int → Cell) :
     ∀ (q : List Req) (t t' : Tree), (∀ r ∈ q, isRestack r.change = true) → TInv content screen t →
     applyChanges (t.wins.size + 1) t q = .ok t' →
-    TInv content screen t' ∧ RootStep t t' ∧ t'.wins.size = t.wins.size ∧ (ParentListed t → ParentListed t') := by
+    TInv content screen t' ∧ RootStep t t' ∧ t'.wins.size = t.wins.size ∧ (ParentListed t → ParentListed t') ∧
+      RectsKept t t' := by
   intro q
   induction q with
   | nil =>
     intro t t' _ hI h
     simp only [applyChanges] at h
     cases h
-    exact ⟨hI, RootStep.refl t, rfl, fun h => h⟩
+    exact ⟨hI, RootStep.refl t, rfl, fun h => h, RectsKept.refl t⟩
   | cons r rest ih =>
     intro t t' hk hI h
     simp only [applyChanges, bind, Bind.bind] at h
@@ -512,10 +539,10 @@ theorem applyChanges_step (content : Id → Int → Int → Cell) (screen : Int 
     | ok t1 =>
       rw [h1] at h
       simp only at h
-      obtain ⟨a1, a2, a3, a4⟩ := restack_step content screen t t1 r.change r.parent r.win (hk r List.mem_cons_self) hI h1
+      obtain ⟨a1, a2, a3, a4, a5⟩ := restack_step content screen t t1 r.change r.parent r.win (hk r List.mem_cons_self) hI h1
       rw [← a3] at h
-      obtain ⟨b1, b2, b3, b4⟩ := ih t1 t' (fun x hx => hk x (List.mem_cons_of_mem _ hx)) a1 h
-      exact ⟨b1, a2.trans b2, by rw [b3, a3], fun hpl => b4 (a4 hpl)⟩
+      obtain ⟨b1, b2, b3, b4, b5⟩ := ih t1 t' (fun x hx => hk x (List.mem_cons_of_mem _ hx)) a1 h
+      exact ⟨b1, a2.trans b2, by rw [b3, a3], fun hpl => b4 (a4 hpl), a5.trans b5⟩
 
 end WinFlush
 end Tickit
